@@ -20,26 +20,41 @@ from ..drive import cli as drv
 
 PID = "C30"
 INVS = ["InvExitStatus", "InvNamesNormalised", "InvFlagsAndValues", "InvDeclaredEnforced",
-        "InvGenerateOutcome", "InvCheckOutcome"]
+        "InvGenerateOutcome", "InvCheckOutcome", "InvModelParams"]
 KNOWN_DEVS = {"BareFlagKeepsDashes"}
 OVERWRITE = "--overwrite"
 
 
 # ------------------------------------------------------------------ presentation helpers (no semantics)
+def _decl(d):
+    return [[drv.text(p["name"]), p["mandatory"]] for p in d["params"]] if d["declared"] else None
+
+
 def show(case):
-    return dict(cmd=case["cmd"], mode=case["mode"], argv=[drv.text(t) for t in case["argv"]],
-                declared=[[drv.text(p["name"]), p["mandatory"]] for p in case["decl"]["params"]]
-                if case["decl"]["declared"] else None,
-                files={drv.text(f["name"]): ([f["status"], f["line"], f["col"]] if f["status"] != "ok" else "ok")
+    langs = case["langs"]
+    return dict(cmd=case["cmd"], mode=case["mode"], selected=drv.text(langs[case["sel"] - 1]["name"]),
+                argv=[drv.text(t) for t in case["argv"]],
+                languages={drv.text(l["name"]): dict(pattern="*" + drv.text(l["suffix"]),
+                                                     model_params=[drv.text(x) for x in l["mparams"]],
+                                                     declared=_decl(l["decl"])) for l in langs},
+                any_declared=_decl(case["anydecl"]),
+                files={drv.text(f["name"]): [drv.text(langs[f["lang"] - 1]["name"])] +
+                       ([f["status"], f["line"], f["col"]] if f["status"] != "ok" else ["ok"])
                        for f in case["files"]})
+
+
+def _kw(ks):
+    return {drv.text(k["key"]): (True if k["ty"] == "bool" else drv.text(k["val"]) if k["ty"] == "str"
+                                 else f"<{k['ty']}>") for k in ks}
+
+
+def _call(c):
+    return dict(file=drv.text(c["file"]), gen=drv.text(c["gen"]), ow=c["ow"], kw=_kw(c["kw"]), model_params=_kw(c["mp"]))
 
 
 def show_obs(o):
     return dict(exit=o["exit"], why=o["why"], exc=o.get("exc", ""), msg=o.get("msg", ""),
-                calls=[dict(file=drv.text(c["file"]), ow=c["ow"],
-                            kw={drv.text(k["key"]): (True if k["ty"] == "bool" else
-                                                     drv.text(k["val"]) if k["ty"] == "str" else f"<{k['ty']}>")
-                                for k in c["kw"]}) for c in o["calls"]],
+                calls=[_call(c) for c in o["calls"]],
                 locs=[[drv.text(x["file"]), x["line"], x["col"]] for x in o["locs"]],
                 oks=[drv.text(x) for x in o["oks"]])
 
@@ -47,11 +62,8 @@ def show_obs(o):
 def show_exp(e):
     if not isinstance(e, dict):
         return e
-    def call(c):
-        return dict(file=drv.text(c["file"]), ow=c["ow"],
-                    kw={drv.text(k["key"]): (True if k["ty"] == "bool" else drv.text(k["val"])) for k in c["kw"]})
-    return dict(exit=e["exit"], why=sorted(e["why"]), calls=[call(c) for c in e["calls"]],
-                may_call=[call(c) for c in e["allowed"]] if e["exit"] else "=calls",
+    return dict(exit=e["exit"], why=sorted(e["why"]), calls=[_call(c) for c in e["calls"]],
+                may_call=[_call(c) for c in e["allowed"]] if e["exit"] else "=calls",
                 locs=[[drv.text(x["file"]), x["line"], x["col"]] for x in e["locs"]])
 
 
@@ -59,7 +71,7 @@ def nontrivial(case):
     toks = [drv.text(t) for t in case["argv"]]
     if case["cmd"] == "check":
         st = {drv.text(f["name"]): f["status"] for f in case["files"]}
-        return len(toks) >= 2 or any(st.get(t) != "ok" for t in toks)
+        return len(toks) >= 2 or any(st.get(t) != "ok" for t in toks)      # (presentation only)
     return any(t.startswith("--") and t != OVERWRITE for t in toks)
 
 
@@ -82,24 +94,59 @@ def _emit(size, d):
 NAMES = ["a", "b", "c", "a-b", "a_b", "a-b-c", "c-", "x1", "a--b", "b_c-x", "x-2", "a_-b"]
 VALUES = ["1", "x", '"x y"', "'q'", "\"'z'\"", 'x"y', '""', "a-b", "k=v", "it's", "'--a'", " sp ", "'\"n\"'",
           "-5", "-", "-0.25", "-x", "-2b", "-.5"]
-FILES = ["m%d.vtm" % i for i in range(1, 7)]
+# sets of registered languages: (name, pattern suffix).  Patterns that share the last extension,
+# patterns for files without any extension, a single language.
+LANGSETS = [
+    [("vta", ".a.vtm"), ("vtb", ".b.vtm")],
+    [("vtreq", ".req.vtm"), ("vtspec", ".spec.vtm"), ("vtpipe", "Pipefile"), ("vtbuild", "Buildfile")],
+    [("vtm", ".vtm")],
+    [("vtx1", "_x.vtm"), ("vtx2", "_y.vtm"), ("vtx3", ".z")],
+]
+
+
+def _random_decl(rng, pool):
+    if rng.random() < 0.35 or not pool:
+        return dict(declared=False, params=[])
+    chosen = rng.sample(pool, rng.randint(1, len(pool)))
+    return dict(declared=True, params=[dict(name=drv.codes(n), mandatory=rng.random() < 0.35) for n in chosen])
 
 
 def _random_case(rng):
-    nfiles = rng.randint(1, len(FILES))
-    files = []
-    for name in rng.sample(FILES, nfiles):
-        st = rng.choice(["ok", "ok", "ok", "syntax", "semantic"])
-        line, col = (0, 0) if st == "ok" else (rng.randint(1, 5), rng.randint(5 if st == "semantic" else 1, 9))
-        files.append(dict(name=drv.codes(name), status=st, line=line, col=col))
-    fnames = [drv.text(f["name"]) for f in files]
-    oknames = [drv.text(f["name"]) for f in files if f["status"] == "ok"] or fnames
-    mode = rng.choice(["language", "language", "grammar", "ext"])
-    d0 = dict(declared=False, params=[])
-    if rng.random() < 0.2:
-        toks = [rng.choice(fnames if rng.random() < 0.4 else oknames) for _ in range(rng.randint(1, 6))]
-        return dict(cmd="check", mode=mode, argv=[drv.codes(t) for t in toks], decl=d0, files=files)
+    lset = rng.choice(LANGSETS)
     names = rng.sample(NAMES, rng.randint(1, 5))
+    # declaration and model-parameter names are written as Python identifiers by whoever registers them
+    idents = sorted({n.replace("-", "_") for n in names})
+    pool = idents + (["zz"] if rng.random() < 0.15 else [])
+    mpsets = [rng.sample(idents, rng.randint(0, min(2, len(idents)))) if rng.random() < 0.5 else [] for _ in lset]
+    if len(set(map(tuple, mpsets))) > 1 and rng.random() < 0.5:
+        mpsets = [mpsets[0]] * len(lset)          # keep the number of distinct registrations small
+    langs = [dict(name=drv.codes(n), suffix=drv.codes(sfx), mparams=[drv.codes(x) for x in sorted(mp)],
+                  decl=_random_decl(rng, pool)) for (n, sfx), mp in zip(lset, mpsets)]
+    if rng.random() < 0.4:                        # every generator declares the same
+        for l in langs[1:]:
+            l["decl"] = langs[0]["decl"]
+    files, fnames, oknames = [], [], []
+    for k in range(rng.randint(1, 6)):
+        owner = rng.randrange(len(lset))
+        named = owner if rng.random() < 0.9 else rng.randrange(len(lset))   # sometimes named like another language
+        sfx = lset[named][1]
+        name = ("m%d" % (k + 1)) + sfx
+        st = rng.choice(["ok", "ok", "ok", "syntax", "semantic"])
+        line, col = (0, 0) if st == "ok" else (rng.randint(2, 6), rng.randint(5 if st == "semantic" else 1, 9))
+        files.append(dict(name=drv.codes(name), lang=owner + 1, status=st, line=line, col=col))
+        fnames.append(name)
+        if st == "ok" and named == owner:
+            oknames.append(name)
+    oknames = oknames or fnames
+    mode = rng.choice(["language", "grammar", "ext", "ext"])
+    sel = rng.randrange(len(lset)) + 1
+    d0 = dict(declared=False, params=[])
+    base = dict(mode=mode, sel=sel, langs=langs, anydecl=_random_decl(rng, pool), files=files)
+    if rng.random() < 0.25:
+        toks = [rng.choice(fnames if rng.random() < 0.4 else oknames) for _ in range(rng.randint(1, 6))]
+        for l in langs:
+            l["decl"] = d0
+        return dict(base, cmd="check", anydecl=d0, argv=[drv.codes(t) for t in toks])
     toks = []
     for _ in range(rng.randint(1, 8)):
         r = rng.random()
@@ -113,13 +160,7 @@ def _random_case(rng):
             toks.append(OVERWRITE)
         else:
             toks.append(rng.choice(VALUES + fnames))      # raw token: may leave the judged fragment
-    decl = d0
-    if rng.random() < 0.65:
-        pool = sorted({n.replace("-", "_") for n in names} | ({"zz"} if rng.random() < 0.15 else set()))
-        # declaration names are written as Python identifiers by whoever registers the generator
-        chosen = rng.sample(pool, rng.randint(1, len(pool)))
-        decl = dict(declared=True, params=[dict(name=drv.codes(n), mandatory=rng.random() < 0.35) for n in chosen])
-    return dict(cmd="generate", mode=mode, argv=[drv.codes(t) for t in toks], decl=decl, files=files)
+    return dict(base, cmd="generate", argv=[drv.codes(t) for t in toks])
 
 
 # ------------------------------------------------------------------ judging
@@ -154,21 +195,26 @@ def _judge_all(rep, groups, devs):
         if k < 2:
             c, o, r = _shrink(c, o, r, devs)
         rep.violation(dict(case=c, shown=show(c), observed=show_obs(o), expected=show_exp(r["exp"])),
-                      f"textx {' '.join(o['argv'])!r} (declared={show(c)['declared']}): observed {show_obs(o)} "
+                      f"textx {' '.join(o['argv'])!r} (languages={show(c)['languages']}): observed {show_obs(o)} "
                       f"but Cli.tla prescribes {show_exp(r['exp'])}")
     return out
 
 
 def _shrink(case, obs, res, devs):
-    """Drop argv tokens / declared parameters while TLC still rejects the observation."""
+    """Drop argv tokens / declared parameters / model parameters while TLC still rejects the observation."""
     for _ in range(8):
         cands = []
         for i in range(len(case["argv"])):
             cands.append(dict(case, argv=case["argv"][:i] + case["argv"][i + 1:]))
-        ps = case["decl"]["params"]
-        for i in range(len(ps)):
-            if len(ps) > 1:
-                cands.append(dict(case, decl=dict(declared=True, params=ps[:i] + ps[i + 1:])))
+        for k, l in enumerate(case["langs"]):
+            ps = l["decl"]["params"]
+            for i in range(len(ps)):
+                if len(ps) > 1:
+                    l2 = dict(l, decl=dict(declared=True, params=ps[:i] + ps[i + 1:]))
+                    cands.append(dict(case, langs=case["langs"][:k] + [l2] + case["langs"][k + 1:]))
+            for i in range(len(l["mparams"])):
+                l2 = dict(l, mparams=l["mparams"][:i] + l["mparams"][i + 1:])
+                cands.append(dict(case, langs=case["langs"][:k] + [l2] + case["langs"][k + 1:]))
         cands = [c for c in cands if c["argv"]]
         if not cands:
             break
@@ -207,6 +253,12 @@ def run(rep):
         "with rejected arguments; the class of the error message (load / missing / undeclared) must be one that "
         "applies, their precedence is not judged",
         "declared parameter names are Python identifiers (no dashes) and a declaring generator declares >= 1 parameter",
+        "carrier languages: one grammar body, the language's name as first keyword at 1:1 (a file loaded with "
+        "another language's meta-model is a syntax error at 1:1); patterns are '*<suffix>', no suffix ends another; "
+        "with a deduced language exactly one pattern matches every model file; every language has its own recording "
+        "generator for the target and one is registered for 'any' (it serves --grammar)",
+        "model parameters are defined on the registered meta-model (a meta-model built from --grammar defines none); "
+        "a custom argument that is a model parameter reaches the model AND the generator",
     ]
     findings = common.open_findings(PID)
     devs = {f["deviation"]: f["id"] for f in findings if f["deviation"] in KNOWN_DEVS}
